@@ -659,7 +659,7 @@ class BeautifulSoup(Tag):
         # Close out any unfinished strings and close all the open tags.
         self.endData()
         while (
-            self.currentTag is not None and self.currentTag.name != self.ROOT_TAG_NAME
+            self.currentTag is not None and self.currentTag is not self
         ):
             self.popTag()
 
@@ -816,7 +816,7 @@ class BeautifulSoup(Tag):
             self.currentTag.contents.append(tag)
         self.tagStack.append(tag)
         self.currentTag = self.tagStack[-1]
-        if tag.name != self.ROOT_TAG_NAME:
+        if tag is not self:
             self.open_tag_counter[tag.name] += 1
         if tag.name in self.builder.preserve_whitespace_tags:
             self.preserve_whitespace_tag_stack.append(tag)
@@ -965,12 +965,11 @@ class BeautifulSoup(Tag):
         :meta private:
         """
         # print("Popping to %s" % name)
-        if name == self.ROOT_TAG_NAME:
-            # The BeautifulSoup object itself can never be popped.
-            return None
-
+        # The BeautifulSoup object itself, at the bottom of the stack,
+        # can never be popped.
         if self.open_tag_counter.get(name) and not any(
-            name == t.name and nsprefix == t.prefix for t in reversed(self.tagStack)
+            name == t.name and nsprefix == t.prefix
+            for t in reversed(self.tagStack[1:])
         ):
             # A tag with this name is open, but only under a different
             # namespace prefix: this end tag closes nothing.
